@@ -41,7 +41,7 @@ REACH = [("yamlpath/commands/yaml_get.py", "main,validateargs", "yaml_get.main")
          ("yamlpath/commands/yaml_validate.py", "main,process_file", "yaml_validate.main"),
          ("yamlpath/common/parsers.py", "get_yaml_data,get_yaml_multidoc_data,jsonify_yaml_data", "Parsers")]
 SIZES = {"quick": dict(cases=30000, sub=160), "thorough": dict(cases=250000, sub=1500)}
-REQUIRED_COUNTERS = ["get_cases", "set_cases", "merge_cases", "diff_cases", "validate_cases", "stdin_cases",
+REQUIRED_COUNTERS = ["merge_one_multidoc_input_cases", "diff_scalar_root_cases", "get_cases", "set_cases", "merge_cases", "diff_cases", "validate_cases", "stdin_cases",
                      "json_cases", "subprocess_cases"]
 
 
@@ -342,8 +342,19 @@ def case_merge(ctx, rng, box, sub):
     out = os.path.join(box.dir, "out-%d.%s" % (rng.randrange(10 ** 6), "json" if fmt == "json" else "yaml"))
     if os.path.exists(out):
         os.unlink(out)
-    case = {"tool": "yaml-merge", "lhs": ltext, "rhs": rtext, "argv": argv, "to_file": to_file, "stdin": via_stdin}
-    if via_stdin:
+    one_input = rng.random() < 0.15 and isinstance(L, (dict, list)) and isinstance(R, (dict, list))
+    case = {"tool": "yaml-merge", "lhs": ltext, "rhs": rtext, "argv": argv, "to_file": to_file, "stdin": via_stdin,
+            "one_multi_document_input": one_input}
+    if one_input:
+        # both documents in ONE input (file or stdin): the default multi-document mode condenses them into one
+        multi = "---\n" + ltext + "\n---\n" + rtext + "\n"
+        ctx.counters["merge_one_multidoc_input_cases"] = ctx.counters.get("merge_one_multidoc_input_cases", 0) + 1
+        if via_stdin:
+            ctx.counters["stdin_cases"] = ctx.counters.get("stdin_cases", 0) + 1
+            r = cli.run("yaml_merge", [a for a in argv if a != "-S"] + ["-"], stdin_text=multi)
+        else:
+            r = cli.run("yaml_merge", argv + (["-o", out] if to_file else []) + [box.file(multi)])
+    elif via_stdin:
         ctx.counters["stdin_cases"] = ctx.counters.get("stdin_cases", 0) + 1
         r = cli.run("yaml_merge", [a for a in argv if a != "-S"] + [lf, "-"], stdin_text=rtext + "\n")
     else:
@@ -382,7 +393,7 @@ def case_merge(ctx, rng, box, sub):
     if not ok:
         ctx.violation("yaml-merge/output-differs-from-library/%s" % fmt, {"case": case, "summary": "printed %r ; library %r" % (
             body[:150], yp.dump(exp[1])[:150])})
-    if sub and not to_file and not via_stdin:
+    if sub and not to_file and not via_stdin and not one_input:
         subprocess_check(ctx, case, "yaml-merge", argv + [lf, rf], r)
 
 
@@ -394,12 +405,17 @@ def case_diff(ctx, rng, box, sub):
     t = C06.gen_tree(rng, 0, rng.choice(["map", "map", "seq", "aoh"]))
     x = rng.random()
     t2 = t if x < 0.25 else C06.gen_tree(rng, 0, "map") if x > 0.9 else C06.edit_tree(rng, C06.edit_tree(rng, t))
+    if rng.random() < 0.12:
+        # scalar-rooted documents on one or both sides (falsy ones included: 0, 0.0, false, null)
+        sc = lambda: ("s", rng.choice(["0", "0.0", "false", "null", "~", "1", "true", "a", "1.5", "'0'"]))
+        t, t2 = (sc(), sc()) if rng.random() < 0.7 else (t, sc())
+        ctx.counters["diff_scalar_root_cases"] = ctx.counters.get("diff_scalar_root_cases", 0) + 1
     ltext, rtext = gd.render_block(t).rstrip("\n"), gd.render_block(t2).rstrip("\n")
     try:
         L, R = yp.load(ltext), yp.load(rtext)
     except yp.LoadError:
         return
-    if not yp.is_container(L) or not yp.is_container(R):
+    if (not yp.is_container(L) and str(L) == "") or (not yp.is_container(R) and str(R) == ""):
         return          # yaml-diff treats an empty-string document as an empty document
     arr = rng.choice(C06.ARR)
     aoh = rng.choice(C06.AOH[:3])
